@@ -167,10 +167,10 @@ def audit(pid):
     out = r.stdout.decode(errors='replace')
     detail = {}
     problems = []
-    for m in re.finditer(r"'([^']+(?:'[^' ]*)*)' depends on axioms: \[([^\]]*)\]", out.replace('\n', ' ')):
+    for m in re.finditer(r"'([^'\s]+(?:'[^'\s]*)*)' depends on axioms: \[([^\]]*)\]", out.replace('\n', ' ')):
         axs = {a.strip() for a in m.group(2).split(',') if a.strip()}
         detail[m.group(1)] = sorted(axs)
-    for m in re.finditer(r"'([^']+(?:'[^' ]*)*)' does not depend on any axioms", out):
+    for m in re.finditer(r"'([^'\s]+(?:'[^'\s]*)*)' does not depend on any axioms", out):
         detail[m.group(1)] = []
     discharged = 0
     for n in names:
